@@ -153,7 +153,7 @@ pub fn is_family_name(sp: &SpecP, name: &str, numbers: bool) -> bool {
 pub fn near_misses(r: &mut Rng, sp: &SpecP, numbers: bool) -> Vec<String> {
     let fixed = fixed_part(sp);
     let sfx = sp.suffix.clone().map_or(String::new(), |s| format!(".{s}"));
-    let good = if numbers { "r00007".to_string() } else { match sp.fmt { 1 => "r20240131-101112".into(), 2 => "r2024-01-31_10-11-12_x".into(), 3 => "r31-01-2024_10-11-12".into(), _ => "r2024-01-31_10-11-12".to_string() } };
+    let good = if numbers { "r00007".to_string() } else { match sp.fmt { 1 => "r20240131-101112".into(), 2 => "r2024-01-31_10-11-12_x".into(), 3 => "r31-01-2024_10-11-12".into(), 4 => "r2024-01-31".into(), _ => "r2024-01-31_10-11-12".to_string() } };
     let sep = if fixed.is_empty() { "" } else { "_" };
     let mut v = vec![
         format!("{fixed}X{sep}{good}{sfx}"),                // longer basename
